@@ -243,6 +243,28 @@ def chunkBy (pat : List Nat) : Nat → Nat → Bytes → List Bytes
 
 def parsePattern (s : String) : List Nat := (s.splitOn "/").filterMap String.toNat?
 
+/-- Trace validation against the fence LTS (Fence.lean): the canonical schedule of an observed HTTP call — every wire
+    message is one Send whose helper runs Lock ; test ; Write ; Unlock; in a stalled-Send scenario the LAST helper has taken
+    the mutex and passed the test when Forward returns and writes only afterwards, the handler's Lock comes after its Unlock —
+    must be executable step by step, end with the trailer written, and its output must be the observed body (the trailer
+    lines compared as a multiset: Go map order). -/
+def fenceLabels (msgs : List Bytes) (stalledLast : Bool) (tr : MD) (oc : Nat) (om : Bytes) : List Fence.Lbl :=
+  let n := msgs.length
+  let full (i : Nat) (m : Bytes) : List Fence.Lbl := [.send m, .hLock i, .hCheck i, .hWrite i, .hUnlock i]
+  let rec go (i : Nat) : List Bytes → List Fence.Lbl
+    | [] => [.setTrailer tr, .fwdReturn oc om]
+    | m :: rest =>
+      if stalledLast && i + 1 == n then [.send m, .hLock i, .hCheck i, .setTrailer tr, .fwdReturn oc om, .hWrite i, .hUnlock i]
+      else full i m ++ go (i + 1) rest
+  go 0 msgs ++ [.finLock, .finSet, .finUnlock, .writeTrailer]
+
+def fenceReplayOK (msgs : List Bytes) (stalledLast : Bool) (tr : MD) (oc : Nat) (om : Bytes) (md : MD) (body : Bytes) : Bool :=
+  match GB.LTS.run Fence.step (Fence.init .fixed .http) (fenceLabels msgs stalledLast tr oc om) with
+  | some s =>
+    s.phase == .done && beqB (s.out.dropLast.flatten ++ lpmTrailer md) body &&
+    (match s.trW with | some t => mdLines t == mdLines md | none => false)
+  | none => false
+
 def handleHTTP (i o : List String) : String :=
   match kv? "k" i, kv? "rt" i, (kv? "fr" i).bind (parseList parseFrameD), (kv? "tl" i).bind parseCB,
         (kv? "rs" i).bind (parseList parseCB), (kv? "fs" i).bind parseCodeMsg,
@@ -302,8 +324,11 @@ def handleHTTP (i o : List String) : String :=
               (match rv.getLast? with | some (.err c) => early || oc == c | _ => true)
             else routeOutcomeOK rt oc om && rv.isEmpty && tg.isEmpty && sd.isEmpty
           let gdOK : Bool := gd == goDecodeSummary msgs block
+          let fenceOK : Bool := !routed || body.length > 200000 ||
+            fenceReplayOK msgs (stalled && decide (msgs.length > sd.length)) tr oc om md body
           if !rvOK then s!"DIFF model=rv:{showResList mrv}"
           else if !bodyOK then "DIFF model=body"
+          else if !fenceOK then "DIFF model=fence-lts-replay"
           else if !ocOK then "DIFF model=outcome"
           else if !gdOK then s!"DIFF model=gd:{goDecodeSummary msgs block}"
           else
